@@ -1107,6 +1107,147 @@ pub proof fn lemma_tpos_distinct(rv: Seq<usize>, j1: int, j2: int, sm: int)
         }
 //@end
 
+//@fn file=src/qdldl/qdldl.rs name=_permute_symmetric_inner rules=R1,R18,zipidx:3=mi
+//@contract
+    requires
+        psym_pre(*A, iperm@, A.n as int),
+        old(AtoPAPt)@.len() == A.rowval@.len(), old(Pr)@.len() == A.rowval@.len(), old(Pv)@.len() == A.rowval@.len(), old(Pc)@.len() == A.n + 1,
+    ensures
+        final(AtoPAPt)@.len() == A.rowval@.len(), final(Pr)@.len() == A.rowval@.len(), final(Pv)@.len() == A.rowval@.len(), final(Pc)@.len() == A.n + 1,
+        // C12 / C08: P = perm(A): column pointers count the entries by target column; entry k of A sits in slot AtoPAPt[k] = tpos(k)
+        // of its target column max(ip r, ip c), with row min(ip r, ip c) and the same value; k -> tpos(k) is injective (lemma_tpos_distinct)
+        forall|c: int| 0 <= c <= A.n ==> #[trigger] final(Pc)@[c] == below(tgseq(*A, iperm@), c, A.rowval@.len() as int),
+        forall|k: int| 0 <= k < A.rowval@.len() ==> #[trigger] final(AtoPAPt)@[k] == tpos(tgseq(*A, iperm@), k),
+        forall|k: int| 0 <= k < A.rowval@.len() ==> final(Pc)@[tgt(*A, iperm@, k) as int] <= #[trigger] tpos(tgseq(*A, iperm@), k) < final(Pc)@[tgt(*A, iperm@, k) + 1],
+        forall|k: int| 0 <= k < A.rowval@.len() ==> final(Pr)@[tpos(tgseq(*A, iperm@), k)] == umin(iperm@[#[trigger] A.rowval@[k] as int], iperm@[colof(*A, k)])
+            && final(Pr)@[tpos(tgseq(*A, iperm@), k)] <= tgt(*A, iperm@, k),
+        forall|k: int| 0 <= k < A.rowval@.len() ==> final(Pv)@[tpos(tgseq(*A, iperm@), k)] == #[trigger] A.nzval@[k],
+//@pre
+    let ghost tg = tgseq(*A, iperm@);
+    let ghost gn = A.n as int;
+    let ghost nnz = A.rowval@.len() as int;
+    proof { lemma_tg_bound(*A, iperm@, gn); assert(A.rowval@.len() == A.rowval.len()); }
+//@iter 1
+it0
+//@loop 1
+        invariant
+            it0.seq().len() == n, range_from_u(it0.seq(), 0), n == gn, psym_pre(*A, iperm@, gn), tg == tgseq(*A, iperm@), nnz == A.rowval@.len(), nnz <= usize::MAX,
+            Ar@ == A.rowval@, Ac@ == A.colptr@, num_entries@.len() == n,
+            forall|q: int| 0 <= q < tg.len() ==> #[trigger] tg[q] < gn, tg.len() == nnz,
+            forall|c: int| 0 <= c < n ==> #[trigger] num_entries@[c] == count_row(tg, c, A.colptr@[it0.index@ as int] as int),
+//@body_start 1
+        let ghost gc = colA as int;
+        proof { assert(A.colptr@[gc] <= A.colptr@[gc + 1] <= A.colptr@[A.n as int]); }
+//@iter 2
+it1
+//@loop 2
+            invariant
+                0 <= gc < gn, colA == gc, n == gn, colP == iperm@[gc], psym_pre(*A, iperm@, gn), tg == tgseq(*A, iperm@), nnz == A.rowval@.len(), nnz <= usize::MAX,
+                Ar@ == A.rowval@, Ac@ == A.colptr@, num_entries@.len() == n,
+                forall|q: int| 0 <= q < tg.len() ==> #[trigger] tg[q] < gn, tg.len() == nnz,
+                it1.seq().len() == A.colptr@[gc + 1] - A.colptr@[gc],
+                forall|i: int| 0 <= i < it1.seq().len() ==> *(#[trigger] it1.seq()[i]) == A.rowval@[A.colptr@[gc] + i],
+                forall|c: int| 0 <= c < n ==> #[trigger] num_entries@[c] == count_row(tg, c, A.colptr@[gc] + it1.index@),
+//@body_start 2
+            let ghost gk = A.colptr@[gc] + it1.index@;
+            proof {
+                assert(A.in_col_u(gk, gc));
+                lemma_colof(*A, gk, gc);
+                assert(*rowA == A.rowval@[gk]);
+                assert(tg[gk] == umax(iperm@[A.rowval@[gk] as int], iperm@[gc]));
+                lemma_count_row_le(tg, tg[gk] as int, gk);
+                assert(forall|c: int| 0 <= c < n ==> count_row(tg, c, gk + 1) == count_row(tg, c, gk) + (if tg[gk] == c { 1int } else { 0int }));
+            }
+//@before "Pc[0] = 0;"
+    proof {
+        assert forall|c: int| 0 <= c < n implies #[trigger] num_entries@[c] == count_row(tg, c, nnz) by { }
+        lemma_below_zero(tg, 0);
+    }
+//@iter 3
+it2
+//@loop 3
+        invariant
+            it2.seq().len() == r14_n1, range_from_u(it2.seq(), 0), r14_n1 == n, r14_lo1_0 == 1, r14_hi1_0 == n + 1, n == gn, Pc@.len() == n + 1, num_entries@.len() == n,
+            tg.len() == nnz, nnz <= usize::MAX, forall|q: int| 0 <= q < tg.len() ==> #[trigger] tg[q] < gn,
+            forall|c: int| 0 <= c < n ==> #[trigger] num_entries@[c] == count_row(tg, c, nnz),
+            acc == below(tg, it2.index@ as int, nnz),
+            forall|c: int| 0 <= c <= it2.index@ ==> #[trigger] Pc@[c] == below(tg, c, nnz),
+//@body_start 3
+        proof { lemma_below_le(tg, it2.index@ + 1, nnz); }
+//@before "num_entries.copy_from_slice("
+    proof { assert forall|c: int| 0 <= c <= n implies #[trigger] Pc@[c] == below(tg, c, nnz) by { } }
+//@before "let mut row_starts = num_entries;"
+    proof { assert(num_entries@ =~= Pc@.subrange(0, n as int)); }
+//@iter 4
+it3
+//@loop 4
+        invariant
+            it3.seq().len() == n, range_from_u(it3.seq(), 0), n == gn, psym_pre(*A, iperm@, gn), tg == tgseq(*A, iperm@), nnz == A.rowval@.len(), nnz <= usize::MAX,
+            Ar@ == A.rowval@, Ac@ == A.colptr@, Av@ == A.nzval@, Pc@.len() == n + 1,
+            forall|q: int| 0 <= q < tg.len() ==> #[trigger] tg[q] < gn, tg.len() == nnz,
+            forall|c: int| 0 <= c <= n ==> #[trigger] Pc@[c] == below(tg, c, nnz),
+            psym_state(*A, iperm@, tg, gn, A.colptr@[it3.index@ as int] as int, row_starts@, AtoPAPt@, Pr@, Pv@),
+//@body_start 4
+        let ghost gc = colA as int;
+        proof { assert(A.colptr@[gc] <= A.colptr@[gc + 1] <= A.colptr@[A.n as int]); }
+//@iter 5
+it4
+//@loop 5
+            invariant
+                0 <= gc < gn, colA == gc, n == gn, colP == iperm@[gc], psym_pre(*A, iperm@, gn), tg == tgseq(*A, iperm@), nnz == A.rowval@.len(), nnz <= usize::MAX,
+                Ar@ == A.rowval@, Ac@ == A.colptr@, Av@ == A.nzval@, Pc@.len() == n + 1,
+                forall|q: int| 0 <= q < tg.len() ==> #[trigger] tg[q] < gn, tg.len() == nnz,
+                forall|c: int| 0 <= c <= n ==> #[trigger] Pc@[c] == below(tg, c, nnz),
+                it4.seq().len() == A.colptr@[gc + 1] - A.colptr@[gc], range_from_u(it4.seq(), A.colptr@[gc] as int),
+                A.colptr@[gc] <= A.colptr@[gc + 1] <= nnz,
+                psym_state(*A, iperm@, tg, gn, A.colptr@[gc] + it4.index@, row_starts@, AtoPAPt@, Pr@, Pv@),
+//@body_start 5
+            let ghost gk = rowA_idx as int;
+            let ghost s1 = row_starts@; let ghost m1 = AtoPAPt@; let ghost r1 = Pr@; let ghost v1 = Pv@;
+            proof {
+                assert(A.in_col_u(gk, gc));
+                lemma_colof(*A, gk, gc);
+                assert(tg[gk] == umax(iperm@[A.rowval@[gk] as int], iperm@[gc]));
+                lemma_tpos_range(tg, gk, gn);
+                assert(s1[tg[gk] as int] == tpos(tg, gk));
+            }
+//@body_end 5
+            proof { lemma_psym_step(*A, iperm@, tg, gn, gk, gc, s1, m1, r1, v1, row_starts@, AtoPAPt@, Pr@, Pv@); }
+//@post
+    proof {
+        lemma_below_total(tg, gn, nnz);
+        assert forall|k: int| 0 <= k < nnz implies Pc@[tgt(*A, iperm@, k) as int] <= #[trigger] tpos(tg, k) < Pc@[tgt(*A, iperm@, k) + 1] by {
+            lemma_tpos_range(tg, k, gn);
+            let t = tg[k] as int;
+            assert(t == tgt(*A, iperm@, k));
+            assert(Pc@[t] == below(tg, t, nnz)); assert(Pc@[t + 1] == below(tg, t + 1, nnz));
+        }
+        assert forall|k: int| 0 <= k < nnz implies Pr@[tpos(tg, k)] == umin(iperm@[#[trigger] A.rowval@[k] as int], iperm@[colof(*A, k)]) && Pr@[tpos(tg, k)] <= tgt(*A, iperm@, k) by {
+            assert(tg[k] == tgt(*A, iperm@, k));
+        }
+    }
+//@end
+
+//@fn file=src/qdldl/qdldl.rs name=permute_symmetric rules=R1 ret=r
+//@contract
+    requires psym_pre(*A, iperm@, A.n as int), A.n < usize::MAX,
+    ensures
+        // C12: (P, AtoPAPt) = the symmetric permutation of the upper-triangular A and its entry map
+        r.0.m == A.n, r.0.n == A.n, r.0.colptr@.len() == A.n + 1, r.0.rowval@.len() == A.rowval@.len(), r.0.nzval@.len() == A.rowval@.len(), r.1@.len() == A.rowval@.len(),
+        forall|c: int| 0 <= c <= A.n ==> #[trigger] r.0.colptr@[c] == below(tgseq(*A, iperm@), c, A.rowval@.len() as int),
+        forall|k: int| 0 <= k < A.rowval@.len() ==> #[trigger] r.1@[k] == tpos(tgseq(*A, iperm@), k),
+        forall|k: int| 0 <= k < A.rowval@.len() ==> r.0.colptr@[tgt(*A, iperm@, k) as int] <= #[trigger] tpos(tgseq(*A, iperm@), k) < r.0.colptr@[tgt(*A, iperm@, k) + 1],
+        forall|k: int| 0 <= k < A.rowval@.len() ==> r.0.rowval@[tpos(tgseq(*A, iperm@), k)] == umin(iperm@[#[trigger] A.rowval@[k] as int], iperm@[colof(*A, k)])
+            && r.0.rowval@[tpos(tgseq(*A, iperm@), k)] <= tgt(*A, iperm@, k),
+        forall|k: int| 0 <= k < A.rowval@.len() ==> r.0.nzval@[tpos(tgseq(*A, iperm@), k)] == #[trigger] A.nzval@[k],
+//@end
+impl CscMatrix<F> {
+//@fn file=src/algebra/csc/core.rs in="ShapedMatrix for CscMatrix<T>" name=size rules=R1 ret=r
+//@contract
+    ensures r == (self.m, self.n)
+//@end
+}
+
 // ---- KKT assembly, upper-triangle layout: the three fills that place P, its missing diagonal entries and A' ----
 pub open spec fn pcnt(P: CscMatrix<F>, c: int) -> int { P.colptr@[c + 1] - P.colptr@[c] }
 pub open spec fn mdn(P: CscMatrix<F>, c: int) -> int { if missing_diag(P, c) { 1int } else { 0int } }
@@ -1727,6 +1868,94 @@ pub proof fn lemma_tril_final(K0: CscMatrix<F>, K2: CscMatrix<F>, K3: CscMatrix<
         mapA[j] == d && K3.rowval@[d] == A.rowval@[j] + n && K3.nzval@[d] == A.nzval@[j] }) by {
         assert(K2.colptr@[i] == K0.colptr@[i] + mdn(P, i) + prow(P, i));
         assert(dest_n(K2, A, 0, i, j) == K0.colptr@[i] + mdn(P, i) + prow(P, i) + (j - A.colptr@[i]));
+    }
+}
+
+
+// ---- symmetric permutation of an upper-triangular matrix (QDLDL's permute_symmetric) ----
+// entry k of A (row r, column c) goes to column max(ip[r], ip[c]) of P = perm(A) and gets row min(ip[r], ip[c])
+pub open spec fn colof(A: CscMatrix<F>, k: int) -> int { choose|i: int| A.in_col_u(k, i) }
+pub open spec fn umax(a: usize, b: usize) -> usize { if a >= b { a } else { b } }
+pub open spec fn umin(a: usize, b: usize) -> usize { if a <= b { a } else { b } }
+pub open spec fn tgt(A: CscMatrix<F>, ip: Seq<usize>, k: int) -> usize { umax(ip[A.rowval@[k] as int], ip[colof(A, k)]) }
+pub open spec fn tgseq(A: CscMatrix<F>, ip: Seq<usize>) -> Seq<usize> { Seq::new(A.rowval@.len(), |k: int| tgt(A, ip, k)) }
+pub proof fn lemma_colof(A: CscMatrix<F>, k: int, i: int)
+    requires A.colptr_ok_u(), A.in_col_u(k, i),
+    ensures colof(A, k) == i,
+{
+    let c = colof(A, k);
+    assert(A.in_col_u(k, c));
+    if c < i { assert(A.colptr@[c + 1] <= A.colptr@[i]); }
+    if i < c { assert(A.colptr@[i + 1] <= A.colptr@[c]); }
+}
+pub open spec fn psym_pre(A: CscMatrix<F>, ip: Seq<usize>, n: int) -> bool {
+    &&& A.colptr_ok_u() && A.n == n && A.m == n && ip.len() == n && A.rowval@.len() <= usize::MAX
+    &&& forall|c: int, k: int| #[trigger] A.in_col_u(k, c) ==> A.rowval@[k] <= c       // upper triangular (check_structure)
+    &&& forall|q: int| 0 <= q < n ==> #[trigger] ip[q] < n                              // an inverse permutation maps into 0..n
+}
+// every entry has a target column below n
+pub proof fn lemma_tg_bound(A: CscMatrix<F>, ip: Seq<usize>, n: int)
+    requires psym_pre(A, ip, n),
+    ensures forall|q: int| 0 <= q < tgseq(A, ip).len() ==> #[trigger] tgseq(A, ip)[q] < n, tgseq(A, ip).len() == A.rowval@.len(),
+{
+    assert forall|q: int| 0 <= q < tgseq(A, ip).len() implies #[trigger] tgseq(A, ip)[q] < n by {
+        let i = lemma_col_of_entry(A, q);
+        lemma_colof(A, q, i);
+        assert(A.rowval@[q] <= i);
+    }
+}
+// each stored entry belongs to a column
+pub proof fn lemma_col_of_entry(A: CscMatrix<F>, q: int) -> (i: int)
+    requires A.colptr_ok_u(), 0 <= q < A.rowval@.len(),
+    ensures A.in_col_u(q, i),
+{
+    assert(A.n > 0) by { if A.n == 0 { assert(A.colptr@[0] == A.nzval@.len()); } }
+    lemma_col_of(A, q, A.n as int)
+}
+// when every element is below sm, `below(.., sm, k)` counts everything
+pub proof fn lemma_below_total(rv: Seq<usize>, sm: int, k: int)
+    requires 0 <= k <= rv.len(), sm >= 0, forall|q: int| 0 <= q < rv.len() ==> #[trigger] rv[q] < sm,
+    ensures below(rv, sm, k) == k,
+    decreases k,
+{
+    if k > 0 { lemma_below_total(rv, sm, k - 1); lemma_below_step(rv, sm, k); } else { lemma_below_zero(rv, sm); }
+}
+// state of the placement pass after the first k entries (storage order)
+pub open spec fn psym_state(A: CscMatrix<F>, ip: Seq<usize>, tg: Seq<usize>, n: int, k: int, starts: Seq<usize>, map: Seq<usize>, pr: Seq<usize>, pv: Seq<F>) -> bool {
+    let nnz = A.rowval@.len() as int;
+    &&& starts.len() == n && map.len() == nnz && pr.len() == nnz && pv.len() == nnz
+    &&& forall|c: int| 0 <= c < n ==> #[trigger] starts[c] == below(tg, c, nnz) + count_row(tg, c, k)
+    &&& forall|j: int| 0 <= j < k ==> #[trigger] map[j] == tpos(tg, j)
+    &&& forall|j: int| 0 <= j < k ==> pr[tpos(tg, j)] == umin(ip[#[trigger] A.rowval@[j] as int], ip[colof(A, j)])
+    &&& forall|j: int| 0 <= j < k ==> pv[tpos(tg, j)] == #[trigger] A.nzval@[j]
+}
+#[verifier::spinoff_prover]
+pub proof fn lemma_psym_step(A: CscMatrix<F>, ip: Seq<usize>, tg: Seq<usize>, n: int, k: int, col: int,
+                             s1: Seq<usize>, m1: Seq<usize>, r1: Seq<usize>, v1: Seq<F>, s2: Seq<usize>, m2: Seq<usize>, r2: Seq<usize>, v2: Seq<F>)
+    requires
+        psym_pre(A, ip, n), tg == tgseq(A, ip), A.in_col_u(k, col), psym_state(A, ip, tg, n, k, s1, m1, r1, v1),
+        ({ let t = tgt(A, ip, k) as int; let d = s1[t] as int;
+           &&& 0 <= d < r1.len()
+           &&& r2 == r1.update(d, umin(ip[A.rowval@[k] as int], ip[col])) && v2 == v1.update(d, A.nzval@[k])
+           &&& m2 == m1.update(k, d as usize) && s2 == s1.update(t, (d + 1) as usize) }),
+    ensures psym_state(A, ip, tg, n, k + 1, s2, m2, r2, v2),
+{
+    let nnz = A.rowval@.len() as int;
+    lemma_tg_bound(A, ip, n);
+    lemma_colof(A, k, col);
+    assert(A.colptr@[col + 1] <= A.colptr@[A.n as int]);
+    let t = tgt(A, ip, k) as int; let d = s1[t] as int;
+    assert(tg[k] == t);
+    assert(d == tpos(tg, k));
+    assert forall|c: int| 0 <= c < n implies #[trigger] s2[c] == below(tg, c, nnz) + count_row(tg, c, k + 1) by {
+        assert(count_row(tg, c, k + 1) == count_row(tg, c, k) + (if tg[k] == c { 1int } else { 0int }));
+    }
+    lemma_tpos_range(tg, k, n);
+    assert forall|j: int| 0 <= j < k + 1 implies r2[tpos(tg, j)] == umin(ip[#[trigger] A.rowval@[j] as int], ip[colof(A, j)]) by {
+        if j < k { lemma_tpos_distinct(tg, j, k, n); lemma_tpos_range(tg, j, n); assert(r1[tpos(tg, j)] == umin(ip[A.rowval@[j] as int], ip[colof(A, j)])); }
+    }
+    assert forall|j: int| 0 <= j < k + 1 implies v2[tpos(tg, j)] == #[trigger] A.nzval@[j] by {
+        if j < k { lemma_tpos_distinct(tg, j, k, n); lemma_tpos_range(tg, j, n); assert(v1[tpos(tg, j)] == A.nzval@[j]); }
     }
 }
 
